@@ -3,10 +3,12 @@ package checks
 import (
 	"context"
 	"encoding/binary"
+	"errors"
 	"fmt"
 	"strings"
 	"time"
 
+	"github.com/tsuna/gohbase"
 	"github.com/tsuna/gohbase/compression"
 	"github.com/tsuna/gohbase/hrpc"
 	"github.com/tsuna/gohbase/pb"
@@ -198,6 +200,128 @@ func c11Direct(c *Ctx) {
 			outc["regioninfo-accepted"]++
 		}
 	}
+	// A5: the row key of an hbase:meta row is the region's name. Every string of length <=5
+	// over {'t', ',', 'a', '1', 00} as the key of a row whose region-info value is valid for
+	// table t: the row is parsed, and what the parser accepts is used as the client uses a
+	// looked-up region - put into a location cache that already knows a region of t, then
+	// looked up. Nothing of that may panic.
+	validRI, _ := proto.Marshal(&pb.RegionInfo{RegionId: proto.Uint64(9), TableName: &pb.TableName{Namespace: []byte("default"), Qualifier: []byte("t")}})
+	validVal := append([]byte("PBUF"), validRI...)
+	for _, name := range stringsUpTo([]byte{'t', ',', 'a', '1', 0}, 5) {
+		unit := fmt.Sprintf("metarowkey|%q", name)
+		if c.Filter != "" && c.Filter != unit {
+			continue
+		}
+		if !own() {
+			continue
+		}
+		n++
+		nt++
+		row := &hrpc.Result{Cells: []*hrpc.Cell{
+			{Row: name, Family: []byte("info"), Qualifier: []byte("regioninfo"), Value: exactBuf(validVal)},
+			{Row: name, Family: []byte("info"), Qualifier: []byte("server"), Value: []byte("rs:1")},
+		}}
+		var reg hrpc.RegionInfo
+		var err error
+		m := catch(func() { reg, _, err = region.ParseRegionInfo(row) })
+		if m == "" && err == nil && reg != nil {
+			m = catch(func() {
+				vc := gohbase.VNewCache()
+				vc.Put(region.NewInfo(5, nil, []byte("t"), []byte("t,a,5"), []byte("a"), nil))
+				vc.Put(reg)
+				vc.Lookup([]byte("t"), []byte("a"))
+				vc.Lookup([]byte("t"), []byte(""))
+				_ = reg.String()
+			})
+		}
+		if m != "" {
+			r.Direct(unit, true, "", &explore.Finding{Class: "meta-row-key-panic", Msg: fmt.Sprintf("an hbase:meta row with key %q and a valid region-info value\n%s", name, firstLines(m, 12))},
+				func() any { return map[string]any{"unit": unit} })
+			continue
+		}
+		if err != nil {
+			outc["metarow-rejected"]++
+		} else {
+			outc["metarow-accepted"]++
+		}
+	}
+	// A6: scan responses whose results have inconsistent shapes, through the real scanner:
+	// every sequence of <=3 results (0-2 cells, partial flag set or not, row a or b) as the
+	// first response, then the end of the scan; partial results allowed or not. Next must
+	// return rows or an error - it must not panic or loop.
+	type rshape struct {
+		cells   int
+		partial bool
+		row     string
+	}
+	var shapes []rshape
+	for cells := 0; cells <= 2; cells++ {
+		for _, pa := range []bool{false, true} {
+			for _, row := range []string{"a", "b"} {
+				shapes = append(shapes, rshape{cells, pa, row})
+			}
+		}
+	}
+	var seqs [][]rshape
+	for _, a := range shapes {
+		seqs = append(seqs, []rshape{a})
+		for _, b := range shapes {
+			seqs = append(seqs, []rshape{a, b})
+			if c.Thorough {
+				for _, d := range shapes {
+					seqs = append(seqs, []rshape{a, b, d})
+				}
+			}
+		}
+	}
+	for si, seq := range seqs {
+		for _, allow := range []bool{false, true} {
+			unit := fmt.Sprintf("scanshape|%v|allowpartial=%v", seq, allow)
+			if c.Filter != "" && c.Filter != unit {
+				continue
+			}
+			if !own() {
+				continue
+			}
+			_ = si
+			n++
+			nt++
+			resp := &pb.ScanResponse{ScannerId: proto.Uint64(7), MoreResults: proto.Bool(true), MoreResultsInRegion: proto.Bool(true)}
+			for _, sh := range seq {
+				res := &pb.Result{Partial: proto.Bool(sh.partial)}
+				for i := 0; i < sh.cells; i++ {
+					res.Cell = append(res.Cell, &pb.Cell{Row: []byte(sh.row), Family: []byte("f"), Qualifier: []byte{'q', byte('0' + i)}, Value: []byte("v")})
+				}
+				resp.Results = append(resp.Results, res)
+			}
+			stub := &shapeRPC{first: resp}
+			opts := []func(hrpc.Call) error{}
+			if allow {
+				opts = append(opts, hrpc.AllowPartialResults())
+			}
+			sc, _ := hrpc.NewScanStr(context.Background(), "t", opts...)
+			calls := 0
+			m := catch(func() {
+				s := gohbase.VNewScanner(stub, sc, quietLogger)
+				for calls = 0; calls < 50; calls++ {
+					if _, err := s.Next(); err != nil {
+						break
+					}
+				}
+				s.Close()
+			})
+			switch {
+			case m != "":
+				r.Direct(unit, true, "", &explore.Finding{Class: "scanner-panics-on-odd-result-shapes", Msg: fmt.Sprintf("first scan response with results %v (cells, partial flag, row)\n%s", seq, firstLines(m, 12))},
+					func() any { return map[string]any{"unit": unit} })
+			case calls >= 50:
+				r.Direct(unit, true, "", &explore.Finding{Class: "scanner-does-not-end-on-odd-result-shapes", Msg: fmt.Sprintf("results %v: 50 Next calls without the end of the scan", seq)},
+					func() any { return map[string]any{"unit": unit} })
+			default:
+				outc["scanshape-ok"]++
+			}
+		}
+	}
 	st := &r.Stats
 	st.Executions += n
 	st.NonTrivial += nt
@@ -209,6 +333,30 @@ func c11Direct(c *Ctx) {
 			map[string]any{"kv": "kvLen=exact keyLen=0xffffffff valLen=exact rowLen=3 famLen=2"},
 			map[string]any{"regioninfo_value": "PBU"})
 	}
+}
+
+// shapeRPC answers the first scan request with a prepared response and ends the scan on
+// the next one; close requests are acknowledged.
+type shapeRPC struct {
+	first *pb.ScanResponse
+	n     int
+}
+
+func (s *shapeRPC) SendRPC(call hrpc.Call) (proto.Message, error) {
+	sc, ok := call.(*hrpc.Scan)
+	if !ok {
+		return nil, errors.New("not a scan")
+	}
+	call.SetRegion(region.NewInfo(1, nil, []byte("t"), []byte("t,,1"), nil, nil))
+	req := sc.ToProto().(*pb.ScanRequest)
+	if req.GetCloseScanner() && req.GetNumberOfRows() == 0 {
+		return &pb.ScanResponse{ScannerId: proto.Uint64(7)}, nil
+	}
+	s.n++
+	if s.n == 1 {
+		return s.first, nil
+	}
+	return &pb.ScanResponse{ScannerId: proto.Uint64(7), MoreResults: proto.Bool(false), MoreResultsInRegion: proto.Bool(false)}, nil
 }
 
 func firstLines(s string, n int) string {
@@ -884,7 +1032,7 @@ func init() {
 	register(&Prop{
 		ID: "C11", Level: "fault_enumeration",
 		Technique: "bounded exhaustive malformed-input enumeration: all short byte strings and the full boundary product of KeyValue length fields into the cellblock reader, every region-info value prefix/corruption, and structure-aware mutations / every truncation / byte flips of valid get, mutate, scan and multi response frames delivered through the real reader goroutine under the controlled scheduler",
-		Rule: "A: all byte strings of length <=2 (thorough <=3), all strings <=6 (8) over {00,01,0e,7f,80,ff}, 10x10x10x8x6 boundary values of kvLen/keyLen/valueLen/rowLen/famLen on exact, short and two-cell buffers (capacity = length), truncations x declared counts, 60+ region-info values. B: for each of 4 response kinds ~45-60 field mutations (call id, exception parts, delimiters, cell_block_meta.length, associated_cell_count, cells_per_result vs flags, multi index / duplicate / result-and-exception / region-result count / nameless exceptions, frame length) singly (thorough: in pairs), every truncation, 5 values at every byte, damaged compressed cellblocks; frames whose counts drive allocations run in a sub-process with a 2 GiB limit. Oracle: no panic in any thread, no caller or reader stranded, later calls served or refused. Non-trivial = every malformed input.",
+		Rule: "A: all byte strings of length <=2 (thorough <=3), all strings <=6 (8) over {00,01,0e,7f,80,ff}, 10x10x10x8x6 boundary values of kvLen/keyLen/valueLen/rowLen/famLen on exact, short and two-cell buffers (capacity = length), truncations x declared counts, 60+ region-info values. B: for each of 4 response kinds ~45-60 field mutations (call id, exception parts, delimiters, cell_block_meta.length, associated_cell_count, cells_per_result vs flags, multi index / duplicate / result-and-exception / region-result count / nameless exceptions, frame length) singly (thorough: in pairs), every truncation, 5 values at every byte, damaged compressed cellblocks; frames whose counts drive allocations run in a sub-process with a 2 GiB limit. Oracle: no panic in any thread, no caller or reader stranded, later calls served or refused. Non-trivial = every malformed input. Part A also: every hbase:meta row KEY of length <=5 over {t , a 1 00} with a valid region-info value, parsed and then used like a looked-up region (put into a cache that knows a region of the table, looked up); every sequence of <=2 (thorough 3) scan-result shapes (0-2 cells, partial flag, row a/b) as a first response through the real scanner, partial results allowed or not (no panic, the scan ends).",
 		Assumptions: []string{"allocation of a frame's own declared length (the 4-byte prefix) is inherent to the framing and not judged; prefixes above 1 MiB are not generated", "default thread schedule for part B (schedules are C03's subject)"},
 		Quick:       120 * time.Second, Thorough: 20 * time.Minute,
 		Units: c11Units, Direct: c11Direct,
